@@ -1,4 +1,4 @@
-import IcyVerif.Lemmas.BinFormatsTndRt
+import IcyVerif.Lemmas.BinFormatsLayers
 set_option linter.unusedSimpArgs false
 set_option linter.unusedVariables false
 /-!
@@ -64,61 +64,192 @@ theorem idf_rt (o : Opts) (date : List Nat) (p : Pic) (hs : o.sauce = true) (hre
   obtain ⟨g, h3, h4⟩ := h2 (Or.inl hs)
   exact ⟨bytes, g, h1, h3, h4⟩
 
-/-- **Tundra** (any width with SAUCE, arbitrary 24-bit colours) — PARTIAL: widths above 1000 are excluded
-    (`tnd_wide_violates`).  Full statement: the same without `hw`. -/
-theorem tnd_rt_partial (o : Opts) (date : List Nat) (p : Pic) (hs : o.sauce = true) (hrep : Representable .tnd o p = true)
-    (hdate : dateOk date = true) (hw : p.w ≤ 1000) :
+/-- **Tundra** (any width the SAUCE record can hold — the width is stored nowhere else —, arbitrary 24-bit colours).
+    Full strength since `fix: Tundra loader replaces a SAUCE width above 1000 by 80 …`. -/
+theorem tnd_rt (o : Opts) (date : List Nat) (p : Pic) (hs : o.sauce = true) (hrep : Representable .tnd o p = true)
+    (hdate : dateOk date = true) :
     ∃ bytes g, save .tnd o date p = .ok bytes ∧ fromBytes .tnd bytes = .ok g ∧ SamePicture .tnd p g := by
-  obtain ⟨bytes, h1, h2⟩ := tnd_roundtrip o date p hrep hdate hw
+  obtain ⟨bytes, h1, h2⟩ := tnd_roundtrip o date p hrep hdate
   obtain ⟨g, h3, h4⟩ := h2 (Or.inl hs)
   exact ⟨bytes, g, h1, h3, h4⟩
 
-/-! ## save → load, without a SAUCE record: PARTIAL (file content that reads as a SAUCE record is excluded) -/
+/-! ## save → load, without a SAUCE record: PARTIAL (file content that `from_bytes` reads as a SAUCE record is excluded) -/
 
-/-- XBin / ADF / IDF / Tundra (80 columns) saved without SAUCE.  Full statement: the same without `hns`. -/
+/-- XBin / ADF / IDF / Tundra (80 columns) saved without SAUCE.  Full statement: the same without the guard.  The guard is
+    EXACT: `tailReadsAsSauce bytes` says that `SauceData::extract` answers `Ok(Some(..))` on the file (signature, version
+    `00`, a date chrono accepts, and — if the comment count is not 0 — a `COMNT` block where it must be); in every other
+    case (`Ok(None)`, or an `Err`, which `from_bytes` logs and ignores) the loader is handed the whole file.  Where the
+    guard fails the tail of the picture data is cut off: the statement is false there (`fake_sauce_violates`; findings
+    `<fmt>:content-reads-as-sauce`).  The writers cannot avoid it: nothing in the formats marks the end of the picture
+    data, and appending an EOF character or an empty record only when the tail would parse is special-casing the input. -/
 theorem rt_nosauce_partial (f : Fmt) (o : Opts) (date : List Nat) (p : Pic) (hf : f ≠ .bin) (hrep : Representable f o p = true)
-    (hdate : dateOk date = true) (hw : f = .tnd → p.w ≤ 1000) :
+    (hdate : dateOk date = true) :
     ∃ bytes, save f o date p = .ok bytes ∧
-      (looksLikeSauce bytes = false → ∃ g, fromBytes f bytes = .ok g ∧ SamePicture f p g) := by
+      (tailReadsAsSauce bytes = false → ∃ g, fromBytes f bytes = .ok g ∧ SamePicture f p g) := by
   cases f with
   | xb => obtain ⟨b, h1, h2⟩ := xb_roundtrip o date p hrep hdate; exact ⟨b, h1, fun h => h2 (Or.inr h)⟩
   | bin => exact absurd rfl hf
   | adf => obtain ⟨b, h1, h2⟩ := adf_roundtrip o date p hrep hdate; exact ⟨b, h1, fun h => h2 (Or.inr h)⟩
   | idf => obtain ⟨b, h1, h2⟩ := idf_roundtrip o date p hrep hdate; exact ⟨b, h1, fun h => h2 (Or.inr h)⟩
-  | tnd => obtain ⟨b, h1, h2⟩ := tnd_roundtrip o date p hrep hdate (hw rfl); exact ⟨b, h1, fun h => h2 (Or.inr h)⟩
+  | tnd => obtain ⟨b, h1, h2⟩ := tnd_roundtrip o date p hrep hdate; exact ⟨b, h1, fun h => h2 (Or.inr h)⟩
+
+/-- the cheap sufficient condition: no `SAUCE` signature 128 bytes before the end of the file -/
+theorem tail_guard_of_signature (bytes : List Nat) (h : looksLikeSauce bytes = false) : tailReadsAsSauce bytes = false :=
+  tail_of_looks bytes h
+
+/-- … and whenever the guard fails the loader is NOT handed the whole file: at least the 128 bytes of the "record" are
+    cut off (so a format whose picture data extends to the end of the file cannot load all of it) -/
+theorem tail_cut_when_guard_fails (f : Fmt) (bytes : List Nat) (h : tailReadsAsSauce bytes = true) :
+    ∃ content s, Sauce.fromBytesSplit dateOk bytes = .ok (content, some s) ∧ content.length + 128 ≤ bytes.length ∧
+      fromBytes f bytes = loadBody f content (some s) := by
+  unfold tailReadsAsSauce at h
+  cases hx : Sauce.extract dateOk bytes with
+  | ok o =>
+    cases o with
+    | none => rw [hx] at h; exact absurd h (by simp)
+    | some s =>
+      have hle := IcyVerif.C11.header_len_le dateOk bytes s hx
+      have hge : 128 ≤ s.headerLen := sauce_header_ge dateOk bytes s hx
+      refine ⟨bytes.take (bytes.length - s.headerLen), s, ?_, ?_, ?_⟩
+      · simp only [Sauce.fromBytesSplit, hx]
+        rw [Sauce.usub_ok hle, Sauce.bind_ok, Sauce.slice_ok (Nat.zero_le _) (by omega), Sauce.bind_ok]
+        simp
+      · rw [List.length_take]; omega
+      · unfold fromBytes
+        simp only [Sauce.fromBytesSplit, hx]
+        rw [Sauce.usub_ok hle, Sauce.bind_ok, Sauce.slice_ok (Nat.zero_le _) (by omega), Sauce.bind_ok]
+        simp
+  | err e => rw [hx] at h; exact absurd h (by simp)
+  | panic site => rw [hx] at h; exact absurd h (by simp)
 
 /-- the conclusion in the form the driver evaluates (`picSame`), so that the check `binformats rt` of the correspondence
     run and the theorems speak about the same predicate -/
 theorem samePicture_checks (f : Fmt) (p : Pic) (g : LBuf) (h : SamePicture f p g) : picSame true f p g = true :=
   picSame_of_same f p g h
 
-/-! ## re-save stability -/
+/-! ## re-save stability: for EVERY byte string the loader accepts
 
-/-- **PARTIAL.**  For every byte string the loader accepts whose loaded picture is representable, saving the loaded
-    picture again and loading that gives the same picture as the first load.
+`fromBytes f bytes = .ok g` is the only thing assumed about the file (`hb`: a file is a string of BYTES); `Restable f o date g`
+says: the picture `g` shows (`g.toPic`: `Buffer::get_char` over the buffer, plus palette, fonts, mode and the SAUCE data the
+buffer keeps) is written by `save`, and that file loads to the same picture.  The proofs characterise the RANGE of each loader
+(`Lemmas/BinFormatsResave*.lean`: an invariant of the cells a layer can hold, kept by `set_char`/placement/crop; the palette
+and font blocks; the SAUCE data `extract` returns) and show that it lies inside the domain of the save → load theorems; where a
+writer refuses a loaded picture by its own rules (`.err`, no file), that is stated as the other half.
 
-    Full statement (not proved): `fromBytes f b = .ok g → ∃ b₂ g₂, save f o date g.toPic = .ok b₂ ∧ fromBytes f b₂ = .ok g₂ ∧
-    picSame false f g.toPic g₂ = true` for ALL accepted `b`.  What is missing is a characterisation of the loaders' range:
-    "every accepted file loads to a representable picture" is FALSE as it stands (an XBin whose header says height 0 loads
-    as a picture without rows; an IDF with more than 200 rows loads but cannot be saved as IDF; a 512-character XBin that
-    only uses its second font is re-saved as a one-font file — same glyphs, other slot number, which is why the check
-    compares glyphs, not slot numbers, for re-saved files), and the true exceptions have to be enumerated per format.
-    On the implementation this half of the property is checked by the oracle (engine-written files and mutated files the
-    loader still accepts), and the model's `load → save → load` is tied to the implementation's on the same files
-    (`binformats resave`). -/
-theorem resave_stable_partial (f : Fmt) (o : Opts) (date : List Nat) (b : List Nat) (g : LBuf)
-    (hload : fromBytes f b = .ok g) (hrep : Representable f o g.toPic = true) (hdate : dateOk date = true)
-    (hw : f = .tnd → g.toPic.w ≤ 1000) :
-    ∃ b₂, save f o date g.toPic = .ok b₂ ∧
-      ((o.sauce = true ∨ looksLikeSauce b₂ = false) → ∃ g₂, fromBytes f b₂ = .ok g₂ ∧ SamePicture f g.toPic g₂) := by
+What is NOT covered, per clause of `ResaveCovered` (each is `_partial` for exactly these):
+* every format: pictures without rows (`1 ≤ g.bh`).  FALSE for BIN and for Tundra re-saved without SAUCE: neither format stores a
+  height, the re-saved file of a 0-row picture loads as the 25 default rows (findings `bin:resave-height0`,
+  `tnd:resave-height0`; witnesses `resave_bin_height0_violates`, `resave_tnd_height0_violates`).  True for XBin / ADF (header and
+  crop give 0 rows again), never the case for IDF; not proved.
+* XBin: 512-character files whose cells all use the second font (re-saved as a one-font file: same glyphs, other slot number —
+  holds under the non-strict comparison `picSame false`, which the oracle and the correspondence run check; not proved).
+  (Merge note: the work package also excluded font blocks that have the default font's CHECKSUM but other glyphs — guard
+  `fontHonest` — because the writer left out a font NAMED like the default font.  `BitFont::is_default` was repaired meanwhile
+  (C17 `fixed:` `xbin_font_named_default`: name AND glyphs), `Font.isDefault` / `fontOk` follow it, the guard held for every
+  font and is dropped: the statement is the same minus that exclusion.)
+* ADF: more than 65535 rows (a file above 10 MiB; the SAUCE height field is 16 bit; not known to fail).
+* IDF: a header that announces more than 80 columns (the loader's layer is 80 columns wide, cells beyond it are dropped on
+  every load; not known to fail).
+* Tundra: files of 2 GiB, pictures of 2^30 cells (`i32` palette indices / positions), and re-saving WITHOUT a SAUCE record a
+  picture that is not 80 columns wide (the format has no width field: the property's quantifier says "any width with SAUCE").
+* BIN: re-saving without a SAUCE record (same reason; quantifier: "with SAUCE"). -/
+
+/-- the loaded pictures the re-save theorem covers -/
+def ResaveCovered (f : Fmt) (o : Opts) (bytes : List Nat) (g : LBuf) : Prop :=
+  1 ≤ g.bh ∧
+  match f with
+  | .xb => analyzeFontUsage g.toPic.rows.flatten ≠ [1]
+  | .bin => o.sauce = true
+  | .adf => g.bh ≤ 65535
+  | .idf => g.bw ≤ 80
+  | .tnd => bytes.length + 8 ≤ 2147483648 ∧ g.bw * g.bh.toNat < 1073741824 ∧ (o.sauce = true ∨ g.bw = 80)
+
+/-- loaded pictures a writer refuses by the format's own limits (it returns `Err`, no file is written): BIN stores width / 2
+    in one byte of its SAUCE record, iCE Draw has at most 200 rows -/
+def Refused (f : Fmt) (g : LBuf) : Prop :=
+  match f with
+  | .bin => ¬ (g.bw % 2 = 0 ∧ g.bw ≤ 510)
+  | .idf => g.bh > 200
+  | _ => False
+
+/-- **PARTIAL** (see above for exactly what `ResaveCovered` leaves out): loading any file the loader accepts, saving it again
+    in the same format and loading that gives the same picture as the first load — or the writer refuses the picture. -/
+theorem resave_stable_partial (f : Fmt) (o : Opts) (date bytes : List Nat) (g : LBuf) (hb : ∀ b ∈ bytes, b < 256)
+    (hdate : dateOk date = true) (hload : fromBytes f bytes = .ok g) (hc : ResaveCovered f o bytes g) :
+    (¬ Refused f g → Restable f o date g) ∧ (Refused f g → save f o date g.toPic = .err) := by
+  obtain ⟨hh, hc⟩ := hc
   cases f with
-  | xb => exact xb_roundtrip o date _ hrep hdate
+  | xb => exact ⟨fun _ => xb_resave_partial o date bytes g hb hdate hload hh hc, fun h => h.elim⟩
   | bin =>
-    obtain ⟨b₂, g₂, h1, h2, h3⟩ := bin_roundtrip o date _ hrep hdate
-    exact ⟨b₂, h1, fun _ => ⟨g₂, h2, h3⟩⟩
-  | adf => exact adf_roundtrip o date _ hrep hdate
-  | idf => exact idf_roundtrip o date _ hrep hdate
-  | tnd => exact tnd_roundtrip o date _ hrep hdate (hw rfl)
+    obtain ⟨h1, h2⟩ := bin_resave o date bytes g hb hdate hc hload hh
+    exact ⟨fun hn => h1 (Classical.not_not.mp hn), fun hr => h2 hr⟩
+  | adf => exact ⟨fun _ => adf_resave o date bytes g hb hdate hload hh hc, fun h => h.elim⟩
+  | idf =>
+    obtain ⟨h1, h2⟩ := idf_resave_partial o date bytes g hb hdate hload hh hc
+    exact ⟨fun hn => h1 (by show g.bh ≤ 200; have : ¬ g.bh > 200 := hn; omega), h2⟩
+  | tnd => exact ⟨fun _ => tnd_resave o date bytes g hb hdate hload hc.1 hh hc.2.1 hc.2.2, fun h => h.elim⟩
+
+/-- the per-format statements behind it (`Lemmas/BinFormatsResave.lean`) -/
+theorem resave_bin_partial (o : Opts) (date bytes : List Nat) (g : LBuf) (hb : ∀ b ∈ bytes, b < 256) (hdate : dateOk date = true)
+    (hs : o.sauce = true) (hload : fromBytes .bin bytes = .ok g) (hh : 1 ≤ g.bh) :
+    (g.bw % 2 = 0 ∧ g.bw ≤ 510 → Restable .bin o date g) ∧ (¬ (g.bw % 2 = 0 ∧ g.bw ≤ 510) → save .bin o date g.toPic = .err) :=
+  bin_resave o date bytes g hb hdate hs hload hh
+
+theorem resave_adf_partial (o : Opts) (date bytes : List Nat) (g : LBuf) (hb : ∀ b ∈ bytes, b < 256) (hdate : dateOk date = true)
+    (hload : fromBytes .adf bytes = .ok g) (hh : 1 ≤ g.bh) (hh2 : g.bh ≤ 65535) : Restable .adf o date g :=
+  adf_resave o date bytes g hb hdate hload hh hh2
+
+theorem resave_xb_partial (o : Opts) (date bytes : List Nat) (g : LBuf) (hb : ∀ b ∈ bytes, b < 256) (hdate : dateOk date = true)
+    (hload : fromBytes .xb bytes = .ok g) (hh : 1 ≤ g.bh)
+    (hp1 : analyzeFontUsage g.toPic.rows.flatten ≠ [1]) : Restable .xb o date g :=
+  xb_resave_partial o date bytes g hb hdate hload hh hp1
+
+theorem resave_idf_partial (o : Opts) (date bytes : List Nat) (g : LBuf) (hb : ∀ b ∈ bytes, b < 256) (hdate : dateOk date = true)
+    (hload : fromBytes .idf bytes = .ok g) (hh : 1 ≤ g.bh) (hw : g.bw ≤ 80) :
+    (g.bh ≤ 200 → Restable .idf o date g) ∧ (g.bh > 200 → save .idf o date g.toPic = .err) :=
+  idf_resave_partial o date bytes g hb hdate hload hh hw
+
+theorem resave_tnd_partial (o : Opts) (date bytes : List Nat) (g : LBuf) (hb : ∀ b ∈ bytes, b < 256) (hdate : dateOk date = true)
+    (hload : fromBytes .tnd bytes = .ok g) (hlen : bytes.length + 8 ≤ 2147483648) (hh : 1 ≤ g.bh)
+    (harea : g.bw * g.bh.toNat < 1073741824) (hs : o.sauce = true ∨ g.bw = 80) : Restable .tnd o date g :=
+  tnd_resave o date bytes g hb hdate hload hlen hh harea hs
+
+/-- what every loader can produce (the facts the proofs above rest on), XBin as the example: width 1..=4096, at most 65535
+    rows, blink or ice, a 16-colour 6-bit palette, one font or — in 512-character mode — two fonts of the same height, every
+    cell an 8-bit character with a 4-bit foreground (3-bit in 512-character mode) and a background that fits the mode -/
+theorem xb_loader_range (bytes : List Nat) (hb : ∀ b ∈ bytes, b < 256) (s : Option Sauce.Sauce) (g : LBuf) (h : xbLoad bytes s = .ok g) :
+    XbRange s g := xb_range bytes hb s g h
+
+/-! ## SAUCE-carrying saves: the texts of the record and fonts named by it -/
+
+/-- title, author, group and comments survive the binary round trip (all five formats) -/
+theorem sauce_texts_rt (f : Fmt) (o : Opts) (date : List Nat) (p : Pic) (bytes : List Nat) (g : LBuf)
+    (hs : o.sauce = true) (hm : metaOk p.sauce = true) (hdate : dateOk date = true) (hb : ∀ b ∈ bytes, b < 256)
+    (hsave : save f o date p = .ok bytes) (hload : fromBytes f bytes = .ok g) :
+    ∃ m, g.sauce = some m ∧
+      m.title = Sauce.carryPad Gen.Sauce.titleLen Gen.Sauce.titlePad (p.sauce.getD {}).title ∧
+      m.author = Sauce.carryPad Gen.Sauce.authorLen Gen.Sauce.authorPad (p.sauce.getD {}).author ∧
+      m.group = Sauce.carryPad Gen.Sauce.groupLen Gen.Sauce.groupPad (p.sauce.getD {}).group ∧
+      m.comments = (p.sauce.getD {}).comments.map Sauce.carryNul :=
+  sauce_texts_roundtrip f o date p bytes g hs hm hdate hb hsave hload
+
+/-- … which under `SauceString`'s own equality (trailing blanks and NULs never count) is: the same title (C11
+    `string_rt_equal`) -/
+theorem sauce_title_equal (f : Fmt) (o : Opts) (date : List Nat) (p : Pic) (bytes : List Nat) (g : LBuf)
+    (hs : o.sauce = true) (hm : metaOk p.sauce = true) (hdate : dateOk date = true) (hb : ∀ b ∈ bytes, b < 256)
+    (hsave : save f o date p = .ok bytes) (hload : fromBytes f bytes = .ok g) :
+    ∃ m, g.sauce = some m ∧ Sauce.strEq m.title (p.sauce.getD {}).title = true := by
+  obtain ⟨m, h1, h2, _⟩ := sauce_texts_roundtrip f o date p bytes g hs hm hdate hb hsave hload
+  refine ⟨m, h1, ?_⟩
+  rw [h2]
+  have hv := (metaOk_valid p [] hm).1
+  exact (IcyVerif.C11.string_rt_equal Gen.Sauce.titleLen Gen.Sauce.titlePad (by decide) _ hv.title).1
+
+/-- BIN stores no glyphs: a font SAUCE can name (TInfoS; table regenerated from `sauce_fonts!`) comes back as that font -/
+theorem bin_font_by_name_rt (o : Opts) (date : List Nat) (p : Pic) (f0 : Font) (hrep : Representable .bin o p = true)
+    (hdate : dateOk date = true) (hf0 : lookupFont p.fonts 0 = some f0) (hn : sauceFontByName f0.name = some f0) :
+    ∃ bytes g, save .bin o date p = .ok bytes ∧ fromBytes .bin bytes = .ok g ∧ SamePicture .bin p g ∧ lookupFont g.fonts 0 = some f0 :=
+  bin_font_by_name o date p f0 hrep hdate hf0 hn
 
 /-! ## non-vacuity: representable pictures of every format, and the two recorded exclusions -/
 
@@ -137,24 +268,24 @@ example : dateOk date0 = true := by decide
 
 /-- XBin, blink mode, two fonts (default + an 8... no: two 16-row fonts), compressed, with SAUCE -/
 def xbPic : Pic := ⟨3, 2, [[cA, cP1, cA], [cP1, cP1, ⟨0x42, ⟨7, 6, Xb.attrBlink, 0⟩⟩]], .blink, dosPalette,
-  [(0, defaultFont), (1, ⟨[71], 16, List.replicate 4096 0xAA⟩)]⟩
+  [(0, defaultFont), (1, ⟨[71], 16, List.replicate 4096 0xAA⟩)], none⟩
 example : Representable .xb ⟨true, true⟩ xbPic = true := by decide +kernel
 /-- XBin, ice mode, one 8-row font, a one-row picture (the pinned tree loaded it 25 rows high) -/
-def xbLow : Pic := ⟨2, 1, [[cB, cBold]], .ice, dosPalette, [(0, fnt8)]⟩
+def xbLow : Pic := ⟨2, 1, [[cB, cBold]], .ice, dosPalette, [(0, fnt8)], none⟩
 example : Representable .xb ⟨true, false⟩ xbLow = true := by decide +kernel
 example : (match save .xb ⟨true, false⟩ date0 xbLow with
     | .ok b => (match fromBytes .xb b with | .ok g => g.bh == 1 && picSame true .xb xbLow g | _ => false)
     | _ => false) = true := by decide +kernel
 
-def binPic : Pic := ⟨2, 3, [[cA, cBlink], [cBold, cA], [cA, cA]], .blink, dosPalette, [(0, defaultFont)]⟩
+def binPic : Pic := ⟨2, 3, [[cA, cBlink], [cBold, cA], [cA, cA]], .blink, dosPalette, [(0, defaultFont)], none⟩
 example : Representable .bin ⟨true, false⟩ binPic = true := by decide +kernel
 
 def row80 (c : Cell) : List Cell := cB :: List.replicate 79 c
-def adfPic : Pic := ⟨80, 2, [row80 cA, row80 cBold], .ice, dosPalette, [(0, defaultFont)]⟩
+def adfPic : Pic := ⟨80, 2, [row80 cA, row80 cBold], .ice, dosPalette, [(0, defaultFont)], none⟩
 example : Representable .adf ⟨false, false⟩ adfPic = true := by decide +kernel
 
 /-- IDF with the escape pair (character 1 on attribute 0), compressed: the pinned tree shifted everything behind it -/
-def idfPic : Pic := ⟨5, 2, [[cEsc, cA, cA, cA, cA], [cB, cEsc, cEsc, cB, cA]], .ice, dosPalette, [(0, defaultFont)]⟩
+def idfPic : Pic := ⟨5, 2, [[cEsc, cA, cA, cA, cA], [cB, cEsc, cEsc, cB, cA]], .ice, dosPalette, [(0, defaultFont)], none⟩
 example : Representable .idf ⟨true, true⟩ idfPic = true := by decide +kernel
 example : (match save .idf ⟨true, true⟩ date0 idfPic with
     | .ok b => (match fromBytes .idf b with | .ok g => picSame true .idf idfPic g | _ => false)
@@ -162,32 +293,134 @@ example : (match save .idf ⟨true, true⟩ date0 idfPic with
 
 /-- Tundra: control-range characters, a bold cell on a bright colour, palette entry 0 that is not black -/
 def tndPic : Pic := ⟨3, 2, [[⟨0x41, ⟨0, 0, 0, 0⟩⟩, ⟨2, ⟨14, 3, 0, 0⟩⟩, ⟨0x43, ⟨9, 0, Xb.attrBold, 0⟩⟩], [cA, cB, ⟨6, ⟨20, 17, 0, 0⟩⟩]], .ice,
-  (31, 89, 15) :: dosPalette.drop 1 ++ [(1, 2, 3), (200, 100, 50), (9, 9, 9), (250, 251, 252), (77, 0, 77)], [(0, defaultFont)]⟩
+  (31, 89, 15) :: dosPalette.drop 1 ++ [(1, 2, 3), (200, 100, 50), (9, 9, 9), (250, 251, 252), (77, 0, 77)], [(0, defaultFont)], none⟩
 example : Representable .tnd ⟨true, false⟩ tndPic = true := by decide +kernel
 example : (match save .tnd ⟨true, false⟩ date0 tndPic with
     | .ok b => (match fromBytes .tnd b with | .ok g => picSame true .tnd tndPic g | _ => false)
     | _ => false) = true := by decide +kernel
 
-/-- **Excluded from `tnd_rt_partial`, and really false:** a representable Tundra picture 1001 columns wide loads 80 wide. -/
-def tndWide : Pic := ⟨1001, 1, [List.replicate 1001 cA], .ice, dosPalette, [(0, defaultFont)]⟩
-theorem tnd_wide_violates :
-    Representable .tnd ⟨true, false⟩ tndWide = true ∧
-    (match save .tnd ⟨true, false⟩ date0 tndWide with
-     | .ok b => (match fromBytes .tnd b with | .ok g => g.bw == 80 && !picSame true .tnd tndWide g | _ => false)
-     | _ => false) = true := by
-  constructor <;> decide +kernel
+/-- a representable Tundra picture 1001 columns wide (the pinned tree loaded it 80 columns wide: finding
+    `tnd:sauce-width>1000`, repaired) comes back 1001 columns wide -/
+def tndWide : Pic := ⟨1001, 1, [List.replicate 1001 cA], .ice, dosPalette, [(0, defaultFont)], none⟩
+theorem tnd_wide_holds :
+    ∃ bytes g, save .tnd ⟨true, false⟩ date0 tndWide = .ok bytes ∧ fromBytes .tnd bytes = .ok g ∧ g.bw = 1001 ∧
+      SamePicture .tnd tndWide g := by
+  obtain ⟨bytes, g, h1, h2, h3⟩ := tnd_rt ⟨true, false⟩ date0 tndWide rfl (by decide +kernel) (by decide)
+  exact ⟨bytes, g, h1, h2, h3.width, h3⟩
 
 /-- **Excluded from `rt_nosauce_partial`, and really false:** a representable 64-column ice-colour XBin picture saved
     without SAUCE whose last row spells a SAUCE record loses that row. -/
 def sauceRow : List Cell :=
   (pairsOf (BinFmt.sauceId ++ [48, 48] ++ List.replicate 75 32 ++ date0 ++ [0, 0, 0, 0, 6, 0, 64, 0, 1, 0] ++ List.replicate 28 0)).map
     fun q => (⟨q.1, fromU8 true q.2⟩ : Cell)
-def fakeSaucePic : Pic := ⟨64, 2, [List.replicate 64 cA, sauceRow], .ice, dosPalette, [(0, defaultFont)]⟩
+def fakeSaucePic : Pic := ⟨64, 2, [List.replicate 64 cA, sauceRow], .ice, dosPalette, [(0, defaultFont)], none⟩
 theorem fake_sauce_violates :
     Representable .xb ⟨false, false⟩ fakeSaucePic = true ∧
     (match save .xb ⟨false, false⟩ date0 fakeSaucePic with
-     | .ok b => looksLikeSauce b && (match fromBytes .xb b with | .ok g => g.bh == 1 && !picSame true .xb fakeSaucePic g | _ => false)
+     | .ok b => tailReadsAsSauce b && (match fromBytes .xb b with | .ok g => g.bh == 1 && !picSame true .xb fakeSaucePic g | _ => false)
      | _ => false) = true := by
   constructor <;> decide +kernel
+
+/-! ## buffers with several layers
+
+The writers read the buffer through `Buffer::get_char` only (translator guard `Gen.BinFmt.writersReadGetCharOnly`), i.e. they
+save the picture of the WHOLE layer stack as the compositor (C13's model, `Model/Comp.lean`) shows it.  `Layered.flatten` is that
+picture; everything above applies to it. -/
+
+/-- for every stack of layers (visible or hidden, any offsets, with or without alpha channel, `Chars` / `Attributes` layers):
+    if the composited picture is in the format's domain, saving the buffer and loading the file gives the composited picture -/
+theorem layers_rt (hb : Comp.Cell → Nat × Nat) (f : Fmt) (o : Opts) (date : List Nat) (B : Layered)
+    (hrep : Representable f o (B.flatten hb) = true) (hdate : dateOk date = true) :
+    ∃ bytes, saveLayered hb f o date B = .ok bytes ∧
+      ((o.sauce = true ∨ tailReadsAsSauce bytes = false) → ∃ g, fromBytes f bytes = .ok g ∧ SamePicture f (B.flatten hb) g) :=
+  layered_roundtrip hb f o date B hrep hdate
+
+/-- the composited picture is rectangular whatever the layers are, and its cells are `Buffer::get_char` -/
+theorem layers_picture (hb : Comp.Cell → Nat × Nat) (B : Layered) (h : 1 ≤ B.h) :
+    wellFormed (B.flatten hb) = true ∧
+    ∀ x y, x < B.w → y < B.h → (B.flatten hb).cell x y = cellOf (Comp.getChar hb B.isTerm B.layers (x : Int) (y : Int)) :=
+  ⟨flatten_wellFormed hb B h, fun x y hx hy => flatten_cell hb B x y hx hy⟩
+
+/-- the one-layer buffers of the theorems above are the special case: one visible opaque `Normal` layer at offset 0 shows its
+    visible cells, and the default cell where it holds an invisible one -/
+theorem layers_single (hb : Comp.Cell → Nat × Nat) (B : Layered) (l : Comp.Layer) (hl : B.layers = [l]) (hv : l.visible = true)
+    (hna : l.alpha = false) (hm : l.mode = .normal) (hox : l.offX = 0) (hoy : l.offY = 0) (x y : Nat)
+    (hx : (x : Int) < l.w) (hy : (y : Int) < l.h) (hnt : (l.getChar x y).hasTransparentColor = false) :
+    Comp.getChar hb B.isTerm B.layers (x : Int) (y : Int) =
+      (if (l.getChar x y).isVisible then l.getChar x y else Comp.defaultCell.withPage l.dfltPage) := by
+  rw [flatten_single hb B l hl hv hna hm hox hoy x y hx hy, hnt]
+  simp
+
+/-- non-vacuity: a 3x2 base layer under a smaller layer with an alpha channel at offset (1, 0) whose middle cell is
+    invisible: the composited picture is in XBin's domain and is neither layer alone -/
+def kA : Comp.Cell := ⟨0x41, ⟨7, 0, 0, 0⟩⟩
+def kB : Comp.Cell := ⟨0x42, ⟨12, 9, 0, 0⟩⟩
+def twoLayers : Layered :=
+  { w := 3, h := 2, isTerm := false,
+    layers := [⟨true, false, .normal, 0, 0, 3, 2, 0, [[kA, kA, kA], [kA, kA, kA]]⟩,
+               ⟨true, true, .normal, 1, 0, 2, 2, 0, [[kB, Comp.invisibleCell], [Comp.invisibleCell, kB]]⟩],
+    ice := .ice, pal := dosPalette, fonts := [(0, defaultFont)] }
+example : Representable .xb ⟨true, true⟩ (twoLayers.flatten (fun _ => (0, 0))) = true ∧
+    (twoLayers.flatten (fun _ => (0, 0))).rows = [[cA, cB, cA], [cA, cA, cB]] := by
+  constructor <;> decide +kernel
+
+/-! ## re-save stability: non-vacuity (files that load and meet `ResaveCovered`) and the excluded points that are really false -/
+
+def fileOf (f : Fmt) (o : Opts) (p : Pic) : List Nat := match save f o date0 p with | .ok b => b | _ => []
+
+/-- `hb`, `hload` and `ResaveCovered` hold for a two-font compressed XBin file, a BIN, an ADF, an IDF and a Tundra file -/
+def xbTiny : Pic := ⟨3, 2, [[cA, cP1, cA], [cP1, cP1, ⟨0x42, ⟨7, 6, Xb.attrBlink, 0⟩⟩]], .blink, dosPalette,
+  [(0, ⟨[70], 1, List.replicate 256 0x81⟩), (1, ⟨[71], 1, List.replicate 256 0xAA⟩)], none⟩
+example : Representable .xb ⟨true, true⟩ xbTiny = true := by decide +kernel
+example : (fileOf .xb ⟨true, true⟩ xbTiny).all (· < 256) = true ∧
+    (match fromBytes .xb (fileOf .xb ⟨true, true⟩ xbTiny) with
+     | .ok g => decide (1 ≤ g.bh) && (analyzeFontUsage g.toPic.rows.flatten != [1])
+     | _ => false) = true := by constructor <;> decide +kernel
+example : (match fromBytes .bin (fileOf .bin ⟨true, false⟩ binPic) with | .ok g => decide (1 ≤ g.bh) && decide (g.bw % 2 = 0 ∧ g.bw ≤ 510) | _ => false) = true := by
+  decide +kernel
+example : (match fromBytes .adf (fileOf .adf ⟨false, false⟩ adfPic) with | .ok g => decide (1 ≤ g.bh ∧ g.bh ≤ 65535) | _ => false) = true := by
+  decide +kernel
+example : (match fromBytes .idf (fileOf .idf ⟨true, true⟩ idfPic) with | .ok g => decide (1 ≤ g.bh ∧ g.bh ≤ 200 ∧ g.bw ≤ 80) | _ => false) = true := by
+  decide +kernel
+example : (match fromBytes .tnd (fileOf .tnd ⟨true, false⟩ tndPic) with
+    | .ok g => decide (1 ≤ g.bh ∧ g.bw * g.bh.toNat < 1073741824) | _ => false) = true := by decide +kernel
+
+/-- a SAUCE record (with its EOF character) of the given data type, file type and size -/
+def sauceRec (dt ft w h : Nat) : List Nat :=
+  [0x1A] ++ Gen.Sauce.sauceId ++ [48, 48] ++ List.replicate 75 32 ++ date0 ++ [0, 0, 0, 0, dt, ft, w % 256, w / 256, h % 256, h / 256, 0, 0, 0, 0, 0, 0] ++
+    List.replicate 22 0
+
+/-- **Excluded from the BIN clause, and really false:** a `.bin` file that is nothing but a (foreign) SAUCE record announcing
+    4 x 0 loads without rows; re-saved (with SAUCE) and loaded again it has the 25 rows the BIN record type implies. -/
+theorem resave_bin_height0_violates :
+    (match fromBytes .bin (sauceRec 1 8 4 0) with
+     | .ok g => g.bh == 0 && g.bw == 4 &&
+        (match save .bin ⟨true, false⟩ date0 g.toPic with
+         | .ok b₂ => (match fromBytes .bin b₂ with | .ok g₂ => g₂.bh == 25 && g₂.bw == 4 | _ => false)
+         | _ => false)
+     | _ => false) = true := by decide +kernel
+
+/-- **Excluded from the Tundra clause, and really false:** a Tundra file without cells whose SAUCE record (height field 0, as
+    every Tundra record) says 80 columns loads as 80 x 0; re-saved WITHOUT a SAUCE record it loads as 80 x 25. -/
+theorem resave_tnd_height0_violates :
+    (match fromBytes .tnd ([BinFmt.tndVersion] ++ BinFmt.tndHeader ++ sauceRec 1 8 80 0) with
+     | .ok g => g.bh == 0 && g.bw == 80 &&
+        (match save .tnd ⟨false, false⟩ date0 g.toPic with
+         | .ok b₂ => (match fromBytes .tnd b₂ with | .ok g₂ => g₂.bh == 25 && g₂.bw == 80 | _ => false)
+         | _ => false)
+     | _ => false) = true := by decide +kernel
+
+/-- SAUCE texts and a font by name: a BIN picture with title, author, one comment line and the font "IBM VGA50" -/
+def vga50 : Font := match sauceFontByName [73, 66, 77, 32, 86, 71, 65, 53, 48] with | some f => f | none => defaultFont
+def binNamed : Pic := ⟨2, 1, [[cA, cBlink]], .blink, dosPalette, [(0, vga50)],
+  some { title := [72, 105], author := [109, 101, 32], group := [], comments := [[99, 49], [99, 0, 50]], ar := false, ls := false }⟩
+example : Representable .bin ⟨true, false⟩ binNamed = true ∧ sauceFontByName vga50.name = some vga50 ∧ vga50.height = 8 := by
+  refine ⟨by decide +kernel, by decide +kernel, by decide +kernel⟩
+example : (match fromBytes .bin (fileOf .bin ⟨true, false⟩ binNamed) with
+    | .ok g => (lookupFont g.fonts 0 == some vga50) &&
+        (match g.sauce with
+         | some m => m.title == [72, 105] && m.author == [109, 101] && m.comments == [[99, 49], [99]]
+         | none => false)
+    | _ => false) = true := by decide +kernel
 
 end IcyVerif.C05
